@@ -267,6 +267,58 @@ fn c01_sweep(ctx: &mut Ctx) {
     }
 }
 
+const GRID_K: u64 = 128 * 750;
+const GRID_N: u64 = 2 * (GRID_K + 1) + 2 * 350 + 2 * 2001 + 129 * 129;
+
+/// Exactly representable "round" arguments with a zero low word: +-k/128 up to 750, the
+/// integers up to 1100, +-2^k, and (for the binary entries) pairs of quarter-integers in
+/// [-16, 16].  Random generation reaches each of them with probability ~0; table look-ups
+/// and reduced-argument-is-zero shortcuts sit exactly there.
+fn c01_exact_grid(ctx: &mut Ctx) {
+    let mut i = ctx.word();
+    ctx.key_u64(i);
+    let tab = std_table();
+    let sgn = |i: u64, v: f64| if i & 1 == 1 { -v } else { v };
+    let (a, b): (f64, Option<f64>) = if i < 2 * (GRID_K + 1) {
+        (sgn(i, (i >> 1) as f64 / 128.0), None)
+    } else {
+        i -= 2 * (GRID_K + 1);
+        if i < 700 {
+            (sgn(i, (751 + (i >> 1)) as f64), None)
+        } else {
+            i -= 700;
+            if i < 4002 {
+                (sgn(i, pow2_f64((i >> 1) as i64 - 1000)), None)
+            } else {
+                i -= 4002;
+                ((i / 129) as f64 / 4.0 - 16.0, Some((i % 129) as f64 / 4.0 - 16.0))
+            }
+        }
+    };
+    ctx.note("a", || showf(a));
+    if let Some(b) = b {
+        ctx.note("b", || showf(b));
+    }
+    let x = Args { a: (a, 0.0), b: (b.unwrap_or(1.0), 0.0), c: (1.0, 0.0), f: b.unwrap_or(1.0), g: 1.0, n: b.map(|v| v as i32).unwrap_or(1), i: 0 };
+    for e in tab.iter() {
+        let wanted = match e.uses {
+            Uses::A => b.is_none(),
+            Uses::AB | Uses::AF | Uses::AN => b.is_some(),
+            _ => false,
+        };
+        if !wanted || !in_c01_domain(e, &x) {
+            continue;
+        }
+        if let Ok(out) = guard(|| (e.f)(&x)) {
+            for w in &out {
+                let r = Dd::new(w.0, w.1);
+                check!(ctx, normalised_or_nonfinite(r), "{}({}) returned {}: finite high word with an overlapping / non-finite low word", e.name, show_args(e, &x), r.show());
+            }
+        }
+    }
+    ctx.set_nontrivial(true);
+}
+
 fn in_operand_domain(r: Dd) -> bool {
     r.valid() && (r.hi == 0.0 || (exponent(r.hi) >= -1000 && exponent(r.hi) <= 999))
 }
@@ -366,10 +418,11 @@ fn c01_program(ctx: &mut Ctx) {
 pub fn c01() -> Property {
     Property {
         id: "C01",
-        rule: "(a) single-call sweep: entry chosen from a table of 101 public entry points producing a TwoFloat (constructors, 25 operator/assignment forms, utility/rounding methods, 13 integer/float conversions, trait routes, all elementary functions, 29 constants); operands valid with hi = 0 or in [2^-1000,2^1000]: whole-range, moderate, pivots of the range switches (±709, -1074..-1020, 1023, k*pi/4, 2^52, 2^53, 32.25 ...) with ulp/2^-j offsets, rounding-function operands, deep-negative exponents for exp/exp2, edge exponents; f64/int/128-bit tie-family arguments. (b) programs: 4 registers and up to 48 instructions over the same table, invariant after every step, a result leaving the operand domain is replaced by a fresh valid value (counted). Oracle: hi finite => lo finite and hi + lo == hi (hardware, cross-checked by exact rounding). non-trivial = finite result with non-zero low word (sweep); a chain of >= 3 steps on operands produced by earlier steps (programs); distinct = distinct (entry, operand bits) / instruction words",
+        rule: "(a) single-call sweep: entry chosen from a table of 101 public entry points producing a TwoFloat (constructors, 25 operator/assignment forms, utility/rounding methods, 13 integer/float conversions, trait routes, all elementary functions, 29 constants); operands valid with hi = 0 or in [2^-1000,2^1000]: whole-range, moderate, pivots of the range switches (±709, -1074..-1020, 1023, k*pi/4, 2^52, 2^53, 32.25 ...) with ulp/2^-j offsets, rounding-function operands, deep-negative exponents for exp/exp2, edge exponents; f64/int/128-bit tie-family arguments. (b) programs: 4 registers and up to 48 instructions over the same table, invariant after every step, a result leaving the operand domain is replaced by a fresh valid value (counted). Oracle: hi finite => lo finite and hi + lo == hi (hardware, cross-checked by exact rounding). non-trivial = finite result with non-zero low word (sweep); a chain of >= 3 steps on operands produced by earlier steps (programs); distinct = distinct (entry, operand bits) / instruction words exact_grid (complete): every unary entry at +-k/128 (|x| <= 750), the integers up to 1100 and +-2^k with a zero low word, every binary/f64/integer-exponent entry at pairs of quarter-integers in [-16,16].",
         assumptions: vec!["a panic produces no TwoFloat and is only counted here (totality is claimed by C13-C15, C18)".into()],
         subchecks: vec![
             SubCheck { name: "sweep", kind: Kind::Generated { words: 120, max_items: 0 }, eval: c01_sweep, quick: 3_000_000, thorough: 150_000_000 },
+            SubCheck { name: "exact_grid", kind: Kind::Enumerated { n: GRID_N }, eval: c01_exact_grid, quick: 0, thorough: 0 },
             SubCheck { name: "programs", kind: Kind::Generated { words: 48, max_items: 48 }, eval: c01_program, quick: 100_000, thorough: 4_000_000 },
         ],
     }
